@@ -100,6 +100,16 @@ func treeOps(w *world, st *treeStats, maxDepth int, withRelist bool, withClose b
 			st.nops++
 		},
 	}
+	ops["refilterRawAll"] = func(t *rapid.T) {
+		// the library's own accept-nothing filter (equal to the construction-time filter of a for-filter node)
+		fs := w.liveFiltered()
+		if len(fs) == 0 || rapid.IntRange(0, 2).Draw(t, "rarely") != 0 {
+			t.Skip("not now")
+		}
+		n := rapid.SampledFrom(fs).Draw(t, "node")
+		w.refilterRawAll(n)
+		st.nops++
+	}
 	if withClose {
 		ops["close"] = func(t *rapid.T) {
 			var cs []*node
